@@ -6269,9 +6269,15 @@ static void general_invoke_callback(int decode_args_from_libffi,
                                             tb1  ? tb1  : Py_None,
                                             NULL);
         if (res1 != NULL) {
-            if (res1 != Py_None)
-                convert_from_object_fficallback(result, SIGNATURE(1), res1,
-                                                decode_args_from_libffi);
+            if (res1 != Py_None) {
+                if (convert_from_object_fficallback(result, SIGNATURE(1), res1,
+                                                decode_args_from_libffi) < 0
+                        && SIGNATURE(1)->ct_size > 0) {
+                    /* the failed conversion may have overwritten 'result' */
+                    memcpy(result, PyBytes_AS_STRING(py_rawerr),
+                                   PyBytes_GET_SIZE(py_rawerr));
+                }
+            }
             Py_DECREF(res1);
         }
         if (!PyErr_Occurred()) {
